@@ -33,6 +33,7 @@ WriteOps ==
   UNION {{[op |-> "CW", b |-> b, p |-> p, tok |-> Tok(bufs[b].c[p].k, FreshI)] : p \in 1..Len(bufs[b].c)} : b \in Bufs}
   \cup {[op |-> "CA", b |-> b, tok |-> Tok(KeyAt(Len(bufs[b].c) + 1), FreshI)] : b \in {x \in Bufs : Len(bufs[x].c) < MaxLen}}
   \cup {[op |-> "CR", b |-> b, toks |-> <<Tok("ea0", FreshI)>>] : b \in Bufs}
+  \cup {[op |-> "CR", b |-> b, toks |-> <<>>] : b \in {x \in Bufs : bufs[x].c # <<>>}}   \* b = b[:0]: a later append lands at position 1
 
 CallOps ==
   (IF "SetAttributes" \in BOps THEN {[op |-> "SetAttributes", b |-> b] : b \in Bufs} ELSE {})
